@@ -57,6 +57,8 @@ def _writers(ctx, attr):
 
 
 def check(ctx, rep):
+    from ..optargs import check as _optargs
+    _optargs(ctx, rep, ['pcbasic/basic/basicevents.py', 'pcbasic/basic/inputs/'], 5)
     hb = ctx.fn(INTERP + ':Interpreter.handle_basic_events')
 
     def events(node):
@@ -169,7 +171,7 @@ def check(ctx, rep):
            'self.enabled = set()' in [norm(s) for s in rs.body] and 'self.suspend_all = False' in [norm(s) for s in rs.body], '', ctx.where(rs))
 
 
-def variants(ctx):
+def _variants0(ctx):
     Va = mu.Variant
 
     def in_fn(fname, f):
@@ -206,4 +208,11 @@ def variants(ctx):
         Va('guard-split-into-two-ifs', 'neutral', INTERP,
            in_fn('Interpreter.handle_basic_events', lambda fn: mu.replace_stmt(fn, lambda st: isinstance(st, ast.If) and 'suspend_all' in norm(st.test),
                                                                                'if self._basic_events.suspend_all:\n    return\nif not self.run_mode:\n    return'))),
+    ]
+
+
+def variants(ctx):
+    return _variants0(ctx) + [
+        mu.Variant('key-number-defaulted-by-truthiness', 'break', 'pcbasic/basic/basicevents.py',
+                   lambda tree: (lambda fn: mu.insert_before(fn, lambda st: isinstance(st, ast.Expr) and norm(st.value).startswith('error.range_check(1, len(self.key)'), 'keynum = keynum or 1'))(mu.find_def(tree, 'BasicEvents.on_event_gosub_')), expect='arguments.zero-is-not-omitted'),
     ]
